@@ -18,6 +18,9 @@ type atomClassifier func(cond ssa.Value) (name string, pol bool, ok bool)
 type boolHelpers struct {
 	bind  func(params []*ssa.Parameter, args []ssa.Value) (unbind func())
 	depth int
+	// env: the value every phi passed so far received on the way taken (a condition computed into a local
+	// - sameTable := a && b - is a phi by the time it is tested)
+	env map[*ssa.Phi]ssa.Value
 }
 
 func evalAtom(cond ssa.Value, cl atomClassifier, assign map[string]bool) (bool, bool) {
@@ -26,11 +29,17 @@ func evalAtom(cond ssa.Value, cl atomClassifier, assign map[string]bool) (bool, 
 
 func evalAtomH(cond ssa.Value, cl atomClassifier, assign map[string]bool, h *boolHelpers) (bool, bool) {
 	neg := false
-	for {
+	for n := 0; n < 16; n++ {
 		if u, ok := cond.(*ssa.UnOp); ok && u.Op == token.NOT {
 			cond = u.X
 			neg = !neg
 			continue
+		}
+		if ph, ok := cond.(*ssa.Phi); ok && h != nil && h.env != nil {
+			if v, ok := h.env[ph]; ok && v != cond {
+				cond = v
+				continue
+			}
 		}
 		break
 	}
@@ -53,7 +62,9 @@ func evalAtomH(cond ssa.Value, cl atomClassifier, assign map[string]bool, h *boo
 		}
 		unbind := h.bind(g.Params, call.Call.Args)
 		h.depth++
+		saved := h.env
 		v, ok := boolFuncEval(g, assign, cl, h)
+		h.env = saved
 		h.depth--
 		unbind()
 		if !ok {
@@ -89,6 +100,9 @@ func sideEffectFree(fn *ssa.Function) bool {
 // boolFuncEval walks fn under one assignment of the atoms.
 func boolFuncEval(fn *ssa.Function, assign map[string]bool, cl atomClassifier, h *boolHelpers) (bool, bool) {
 	env := map[*ssa.Phi]ssa.Value{}
+	if h != nil {
+		h.env = env
+	}
 	b := fn.Blocks[0]
 	var prev *ssa.BasicBlock
 	for steps := 0; steps < 200; steps++ {
@@ -226,8 +240,11 @@ func boolFuncTable(fn *ssa.Function, atoms []string, cl atomClassifier) (map[int
 // boolFuncTableH is boolFuncTable that looks into boolean helpers (see boolHelpers).
 func boolFuncTableH(fn *ssa.Function, atoms []string, cl atomClassifier, h *boolHelpers) (map[int]bool, string) {
 	tbl, bad := boolFuncTable(fn, atoms, cl)
-	if tbl != nil || h == nil {
+	if tbl != nil {
 		return tbl, bad
+	}
+	if h == nil {
+		h = &boolHelpers{}
 	}
 	out := map[int]bool{}
 	for mask := 0; mask < 1<<len(atoms); mask++ {
